@@ -407,7 +407,17 @@ class Executor:
             it, pre_iter, ex = alts[0]
             if ex:
                 return [(it, ex)]
+        pre_locals = dict(it.locals)
         self._havoc(it, s.body, fctx, oid, loop=s)
+        # what the loop starts from: the values of its loop-carried locals on entry
+        init_effects = []
+        for nm, sym in it.counters.get('__carried__%s' % oid, []):
+            if isinstance(s, ast.For) and nm in _names_in_target(s.target):
+                continue
+            v0 = pre_locals.get(nm)
+            init_effects.append(Effect('write', target=sym, value=term(v0) if v0 is not None else '@undef', lineno=ln,
+                                       epoch=st.epoch, extra='loop-entry'))
+        it.effects.extend(init_effects)
         after = it.fork()
         iter_state = it.fork()
         iter_state.lits = []
@@ -908,8 +918,35 @@ class _Ev:
         return [(s2, ast.UnaryOp(op=e.op, operand=v), ex) for s2, v, ex in self.go(e.operand, st)]
 
     def e_BoolOp(self, e, st):
-        # as a value: no splitting (conditions in `if` are split by branch())
-        return [(s2, ast.BoolOp(op=e.op, values=v) if not ex else None, ex) for s2, v, ex in self.seq(e.values, st)]
+        # as a value: no splitting (conditions in `if` are split by branch()) unless a later
+        # operand has an effect - then the short circuit decides whether the effect happens
+        def impure(x):
+            for c in ast.walk(x):
+                if isinstance(c, (ast.Yield, ast.YieldFrom)):
+                    return True
+                if isinstance(c, ast.Call):
+                    f = c.func
+                    nm = f.id if isinstance(f, ast.Name) else f.attr if isinstance(f, ast.Attribute) else ''
+                    if nm not in PURE_FUNCS and nm not in PURE_METHODS:
+                        return True
+            return False
+        if not any(impure(v) for v in e.values[1:]):
+            return [(s2, ast.BoolOp(op=e.op, values=v) if not ex else None, ex) for s2, v, ex in self.seq(e.values, st)]
+        is_and = isinstance(e.op, ast.And)
+        res = []
+        ln = getattr(e, 'lineno', 0)
+        first, rest = e.values[0], e.values[1:]
+        for s2, b, ex in self.x.branch(first, st, self.fctx, ln):
+            if ex:
+                res.append((s2, None, ex))
+                continue
+            if b != is_and:
+                # short circuit: the value is the first operand (known truthiness)
+                res.append((s2, ast.Constant(value=b), None))
+            else:
+                nxt = rest[0] if len(rest) == 1 else ast.BoolOp(op=e.op, values=rest)
+                res.extend(self.go(nxt, s2))
+        return res
 
     def e_Compare(self, e, st):
         return [(s2, ast.Compare(left=v[0], ops=e.ops, comparators=v[1:]) if not ex else None, ex)
